@@ -180,10 +180,12 @@ GStepActive(cs, ev, q, tol) ==
         anyBig == c.big \/ \E k \in 1..nout : outs[k].big
         posOK1 == /\ cs.posOK
                   /\ c.code # "M206"
-                  /\ ~(arc /\ (c.cls \notin {"in", "out"} \/ ~g0.abs))
+                  /\ ~(arc /\ (c.cls \notin {"in", "out", "clip"} \/ ~g0.abs))
                   /\ ~(c.code = "G92" /\ HasXYZ(c) /\ ~g0.abs)
                   /\ ~anyBig
-        inR   == IF arc THEN c.cls = "in" ELSE InAny(cs.regs, g1.x, g1.y, q)
+        \* arcs carry their classification: "in" every sampled point lies in a region, "clip"
+        \* some sampled point certainly does (the end point does not), "out" none does
+        inR   == IF arc THEN c.cls \in {"in", "clip"} ELSE InAny(cs.regs, g1.x, g1.y, q)
         outR  == IF arc THEN c.cls = "out" ELSE ~InAny(cs.regs, g1.x, g1.y, q)
         inside  == cs.en /\ inR
         outside == ~cs.en \/ outR
